@@ -125,6 +125,15 @@ func c15Variants(src string) (base string, vs []c15Variant) {
 	// leading / trailing layout
 	vs = append(vs, c15Variant{"\n\t " + base + " \n", "gap:outer-whitespace", "outer"})
 	vs = append(vs, c15Variant{"-- c\n" + base + " --(c)--", "gap:outer-comments", "outer"})
+	// ... and every filler once behind the last token and once before the first (a program whose last command has
+	// an empty body ends in a keyword or a number: what follows it is layout all the same)
+	for _, f := range c15Fillers {
+		if strings.HasPrefix(f.text, "--(") && ts[len(ts)-1].Kind == "punct" && strings.HasSuffix(ts[len(ts)-1].Text, "-") {
+			continue
+		}
+		vs = append(vs, c15Variant{base + f.text, "trailing:" + f.name, "after " + tokClass(ts[len(ts)-1])})
+		vs = append(vs, c15Variant{f.text + base, "leading:" + f.name, "before " + tokClass(ts[0])})
+	}
 	// keyword case
 	up := make([]gen.Tok, len(ts))
 	mx := make([]gen.Tok, len(ts))
@@ -167,7 +176,7 @@ func C15(r *drv.Run) {
 	if !quick(r) {
 		ngen = 4000
 	}
-	r.Rule = "valid programs as token lists (hand corpus covering every production incl. process statements/expressions, amount clauses, named loops, ranges, caseless, regex literals; repository examples; generated programs) x EVERY gap between adjacent tokens x {newline, tab run, CRLF, line comment, block comment glued, block comment with blanks, multi-line block comment, two line comments, two glued block comments, block then line comment, three comments mixed with blanks, vertical tab, form feed, block comments whose text mentions `--(` or consists of dashes and parentheses, the empty block comment, a line comment mentioning block syntax, line and block comments holding bytes that are not valid UTF-8} and - where the neighbours are not both words - removal of the whitespace; every keyword individually and all together in UPPER and MiXeD case; `function` written for its alias `transform`; leading/trailing layout; the same text, and its CR LF form, read from a file through CompileFile; a 5 MiB gap (blank lines, one block comment, line comments) between the commands of two programs, through CompileFile and through Compile; eight White_Space code points beyond ASCII (U+0085, U+00A0, U+1680, U+2000, U+2003, U+2028, U+205F, U+3000) in one gap per program, judged as a group: all of them separate tokens or none does. Oracle (metamorphic): variant accepted iff the single-blank original is, reflect.DeepEqual + canonical-dump equality of the syntax trees (hook H6), identical Run results on 3 texts (a text on which the original alone needs more than 4 000 VM steps is dropped for its variants, which run under a budget of 30 000). Non-trivial = every distinct variant whose three verdicts agreed; distinct by variant source."
+	r.Rule = "commands with an empty body in every amount form (alone, first, in the middle, last in a source) among the bases; every filler also behind the last token and before the first; valid programs as token lists (hand corpus covering every production incl. process statements/expressions, amount clauses, named loops, ranges, caseless, regex literals; repository examples; generated programs) x EVERY gap between adjacent tokens x {newline, tab run, CRLF, line comment, block comment glued, block comment with blanks, multi-line block comment, two line comments, two glued block comments, block then line comment, three comments mixed with blanks, vertical tab, form feed, block comments whose text mentions `--(` or consists of dashes and parentheses, the empty block comment, a line comment mentioning block syntax, line and block comments holding bytes that are not valid UTF-8} and - where the neighbours are not both words - removal of the whitespace; every keyword individually and all together in UPPER and MiXeD case; `function` written for its alias `transform`; leading/trailing layout; the same text, and its CR LF form, read from a file through CompileFile; a 5 MiB gap (blank lines, one block comment, line comments) between the commands of two programs, through CompileFile and through Compile; eight White_Space code points beyond ASCII (U+0085, U+00A0, U+1680, U+2000, U+2003, U+2028, U+205F, U+3000) in one gap per program, judged as a group: all of them separate tokens or none does. Oracle (metamorphic): variant accepted iff the single-blank original is, reflect.DeepEqual + canonical-dump equality of the syntax trees (hook H6), identical Run results on 3 texts (a text on which the original alone needs more than 4 000 VM steps is dropped for its variants, which run under a budget of 30 000). Non-trivial = every distinct variant whose three verdicts agreed; distinct by variant source."
 	r.Assumptions = []string{
 		"a block comment glued directly after '-' is not a layout change (it lexes as a different token sequence) and is not generated",
 		"the harness tokenizer's token boundaries are those of the documented lexing rules; it is only applied to programs known to be valid",
@@ -175,6 +184,11 @@ func C15(r *drv.Run) {
 	}
 	bases := append([]string{}, gen.Corpus...)
 	bases = append(bases, gen.ExampleFiles(drv.RepoRoot)...)
+	// commands with an EMPTY body (accepted programs that find nothing): every amount form, find and replace, alone,
+	// first, in the middle and last in a source
+	bases = append(bases, "find all", "find top 2", "find take 3", "find last 2", "find skip 1", "find skip 1 take 2", "replace all with 'x'", "replace skip 1 with 'x' 'y'",
+		"replace top 2 with value", "find all find all 'a'", "find top 1 replace all 'a' with 'b'", "set p to pattern 'a' find all find all p", "find all 'a' find skip 1 find all 'b'",
+		"find all 'a' find last 3", "replace all 'a' with 'b' replace take 2 with 'c' find all 'c'")
 	for i := 0; i < ngen; i++ {
 		rng := gen.Derive(r.Seed, "C15", i)
 		if i%3 == 2 {
